@@ -375,6 +375,9 @@ func TestPropFailedCommit(t *testing.T) {
 		defer f.cleanup()
 		bst := f.st.(*badgerstore.Store)
 		outside := badgerstore.NewStore(bst.DB).SetPrefix(c.Cfg.Prefix) // same records, no listeners
+		if c.Cfg.Typed {
+			outside.SetType(typedRec{})
+		}
 		var armed atomic.Bool
 		var other Mut
 		bst.BeforeChange(func(id string, before, after interface{}) error {
